@@ -34,6 +34,17 @@ def seeds_for(prop):
     return out
 
 
+MAX_SEEDS = int(os.environ.get("OHSA_SELFTEST_MAX", "24"))
+
+
+def _select(prop, seeds):
+    """At most MAX_SEEDS per run (a thorough check has to end in minutes, not hours): the changes seeded for this very
+    property first, then the others, in a fixed order."""
+    own = [s for s in seeds if s[0].startswith(prop + "-")]
+    rest = [s for s in seeds if not s[0].startswith(prop + "-")]
+    return (own + rest)[:MAX_SEEDS]
+
+
 def _one(prop, sid, patch):
     d = tempfile.mkdtemp(prefix="ohg-selftest-")
     try:
@@ -57,7 +68,9 @@ def run(prop):
     from concurrent.futures import ThreadPoolExecutor
     summary = {"seeds": [], "detected": 0, "skipped": 0}
     errors = []
-    seeds = seeds_for(prop)
+    all_seeds = seeds_for(prop)
+    seeds = _select(prop, all_seeds)
+    summary["recorded_for_property"] = len(all_seeds)
     with ThreadPoolExecutor(max_workers=4) as ex:
         results = list(ex.map(lambda sp: _one(prop, sp[0], sp[1]), seeds))
     for sid, nv, rc in results:
